@@ -510,6 +510,10 @@ func mangle(c context, templateName string) string {
 	if c.element.name != "" {
 		s += "_" + c.element.String()
 	}
+	if c.linkRel != "" {
+		// The rel values of a link element select the sanitizer of its href.
+		s += "_rel" + c.linkRel
+	}
 	return s
 }
 
